@@ -35,7 +35,7 @@ def differential(item):
                 s = list(want)
                 for _ in range(3):
                     t = list(s)
-                    op = rng.randrange(5)
+                    op = rng.randrange(7)
                     if op == 0:
                         for _k in range(rng.randrange(1, 5)):
                             t[rng.randrange(len(t))] = rng.choice(S.CHARSET + "1bioBC")
@@ -46,8 +46,23 @@ def differential(item):
                     elif op == 3:
                         i = rng.randrange(len(t))
                         t[i] = t[i].upper()
-                    else:
+                    elif op == 4:
                         t = [c.upper() for c in t]
+                    elif op == 5:
+                        # characters outside ASCII whose case mapping lands in ASCII (U+212A KELVIN SIGN lowers to 'k',
+                        # U+017F upper-cases to 'S', U+0130 / U+0131 are dotted / dotless i) and plain non-ASCII ones
+                        t = [c.upper() for c in t] if rng.random() < 0.7 else t
+                        for i, c in enumerate(t):
+                            if c in "Kk" and rng.random() < 0.6:
+                                t[i] = "\u212a"
+                                break
+                        else:
+                            t[rng.randrange(len(t))] = rng.choice(["\u212a", "\u017f", "\u0130", "\u0131", "\u00e9", "\uff21", "\x7f", "\x80", " "])
+                    else:
+                        # an address whose real prefix merely STARTS with the expected one (the separator is the LAST '1')
+                        hrp2 = hrp + rng.choice(["1", "1q", "1tcv", "c", "1" + hrp])
+                        m2 = S.encode(hrp2, v, prog)
+                        t = list(m2) if m2 else t
                     m = "".join(t)
                     w = S.decode(hrp, m)
                     g = R.decode(hrp, m)
